@@ -98,7 +98,9 @@ def read_batch(buffer: IO[bytes]) -> RecordBatch:
         records = []
         for _ in range(num_records):
             record = read_record(batch_buffer, base_timestamp, base_offset)
-            if record.timestamp.timestamp() > max_timestamp:
+            # For LogAppendTime batches (attributes bit 3) the max timestamp is the
+            # broker's append time, it does not bound the records' own timestamps.
+            if not attributes & 0b1000 and record.timestamp.timestamp() > max_timestamp:
                 raise ValueError("Record has timestamp larger than batch max timestamp")
             records.append(record)
 
